@@ -1160,6 +1160,9 @@ impl World {
         let watched = std::mem::take(&mut self.watched);
         self.text.push(inp.text());
         out.op(inp.line(), show(&r, false));
+        self.last_exec = Some(show(&r, false));
+        self.last_reply = show(&r, false);
+        self.replies.push(self.last_reply.clone());
         let after = dump_keys(&self.st, &self.keys).await;
         out.op("DUMP".into(), show_dump(&after));
         self.nontrivial = true;
@@ -1981,6 +1984,20 @@ fn corpus() -> Vec<(usize, Vec<Step>)> {
                 Inp::Cmd(Cmd::Set("x".into(), b("8"))),
             ]),
             Step::In(Inp::Exec(vec![])),
+        ]));
+        // kv_exec_serializable_other_keys: the other client works on keys the transaction neither
+        // queues nor watches, between EVERY pair of its store accesses — the outcome must be a
+        // serial one (the oracle of concurrent_exec demands it)
+        v.push((shards, vec![
+            Step::Other(Cmd::Set("k".into(), b("0"))),
+            Step::Other(Cmd::Rpush("l".into(), vec![b("7")])),
+            Step::In(Inp::Watch(vec!["k".into()])),
+            Step::In(Inp::Multi),
+            Step::In(Inp::Cmd(Cmd::Set("k".into(), b("1")))),
+            Step::In(Inp::Cmd(Cmd::Get("k".into()))),
+            Step::In(Inp::Cmd(Cmd::Incr("n".into()))),
+            Step::ConcExec(vec![vec![], vec![Cmd::Set("x".into(), b("2"))], vec![Cmd::Rpush("l".into(), vec![b("8")])], vec![Cmd::Sadd("ab".into(), b("9"))], vec![Cmd::Del("x".into())]]),
+            Step::ExpectExec("C05:independent-clients:serializable", "*3 +OK $x31 :1"),
         ]));
         // machines_differ_on_rewatch_counterexample, connection side: every snapshot of a key counts
         // (k: 0 at the first WATCH, 1 at the second, 0 again at EXEC: nil)
